@@ -17,6 +17,15 @@ Stage B (correspondence with the Lean model Ptn.C02):
   * `hist`: the same histories as the oracle; the structural TTN model (parent / children / logical
     leg labels per node, driven through the model's Node machine exactly like ttn.py drives `Node`)
     must reproduce root, parents, exact child order, open-label order and shapes after every op.
+  * `comp`: composite edits as the algorithms perform them - OneSiteTDVP._update_link (the real
+    `_split_updated_site` on a stub + the documented contraction), TwoSiteTDVP._update_two_site_nodes
+    (replayed call sequence), split_qr_contract_r_to_neighbour, canonical_form, contract_and_split_with_parent,
+    truncate_node (= recursive_truncation between its canonicalisations) - in random order on one network.
+    Oracle: identifiers, root, parents, children sets, open-leg counts and dimensions never change, the network
+    stays well-formed; while all edits so far were exact (QR, untruncated SVD) the labelled dense contraction is
+    the original tensor (so every node kept its open legs in order).  Correspondence: the model's composite
+    operations (`link: twosite: move: csplit: rectrunc:` tokens of `C02 hist`) reproduce root, parents, exact
+    child order, open labels and shapes after every edit, truncated ones included.
 """
 from __future__ import annotations
 
@@ -37,6 +46,9 @@ RULE = ("hist cases: seed -> tree (<= 8 nodes, random shape, bonds/open dims fro
         "change_node_identifier, replace_tensor with a permutation, legs_before_combination + contract + "
         "split back, plain accesses, and a malformed stream (splits / contractions that would create a bond > 24 "
         "or an array > 40000 entries are not drawn). nodeseq cases: random Node method sequences. "
+        "comp cases: seed -> tree (2-8 nodes) and 2-10 composite edits (link update, two-site update, centre move, "
+        "canonical_form to a random centre, contract_and_split_with_parent, truncate_node; SVDs untruncated or cut to "
+        "1 / 2) on random edges in both orientations; non-trivial = >= 3 different kinds and some child order changed. "
         "non-trivial = history with >= 3 different operation kinds in which some operand had a pending "
         "(non-identity) leg permutation or an identifier was reused; nodeseq with >= 3 different methods")
 PARTIAL = [
@@ -54,6 +66,10 @@ PARTIAL = [
     "returns a network, it is well-formed'; the harness reports every exception on an admissible call",
     "child order after split_nodes / insert_identity is not documented: compared with the model "
     "(correspondence), not demanded by the oracle",
+    "composite edits: proved are well-formedness, root, identifiers, parents, children (with the exact child order) "
+    "(composite_edits_preserve_tree, recursive_truncation_restores_structure, Ptn.C06.*_structure_partial, "
+    "Ptn.C10.*_structure_partial); that every node keeps its open legs in order and that only bond dimensions "
+    "change is NOT proved - checked by the comp stream (oracle on the library, correspondence with the model)",
     "behaviour on inadmissible arguments is only sampled by the malformed stream (must raise; network "
     "unchanged where the exception precedes every mutation)",
 ]
@@ -1343,6 +1359,206 @@ def compare_hist(ctx, case, done, info, model_out: str):
             return
 
 
+# ===================================================================== composite edits (TDVP / canonical form / truncation)
+
+COMP_KINDS = ("link", "twosite", "move", "csplit", "trunc", "canon")
+
+
+def svd_params(k):
+    from pytreenet.util.tensor_splitting import SVDParameters
+    if k is None:
+        return untruncated()
+    return SVDParameters(max_bond_dim=k, rel_tol=float("-inf"), total_tol=float("-inf"))
+
+
+def gen_comp_ops(w: "World", rng: random.Random, nops: int) -> List[Dict[str, Any]]:
+    """The tree never changes, so a list of composite edits can be drawn in advance from its edges."""
+    edges = [(e["parent"], x) for x, e in w.exp.nodes.items() if e["parent"] is not None]
+    names = list(w.exp.nodes)
+    ops: List[Dict[str, Any]] = []
+    for _ in range(nops):
+        kind = rng.choice(COMP_KINDS)
+        k = rng.choice([None, None, None, 1, 2])
+        if kind == "trunc":
+            ops.append({"op": "trunc", "k": k})
+        elif kind == "canon":
+            ops.append({"op": "canon", "c": rng.choice(names)})
+        elif edges:
+            p, c = rng.choice(edges)
+            if kind == "csplit":
+                ops.append({"op": "csplit", "a": c, "b": p, "k": k})
+            else:
+                a, b = (p, c) if rng.random() < 0.5 else (c, p)
+                op = {"op": kind, "a": a, "b": b}
+                if kind == "twosite":
+                    op["k"] = k
+                ops.append(op)
+    return ops
+
+
+class _TdvpStub:
+    """Just enough of a OneSiteTDVP object to run the real `_split_updated_site`."""
+    def __init__(self, state):
+        self.state = state
+
+    @staticmethod
+    def create_link_id(a, b):
+        from pytreenet.time_evolution.tdvp_algorithms.onesitetdvp import OneSiteTDVP
+        return OneSiteTDVP.create_link_id(a, b)
+
+    def _update_cache_after_split(self, *a, **k):
+        return None
+
+
+def comp_bond(ttn, a, b) -> int:
+    n = ttn.nodes[a]
+    return int(n.shape[n.neighbour_index(b)])
+
+
+def apply_comp(w: "World", op: Dict[str, Any], tmpno: List[int]) -> Tuple[List[str], bool]:
+    """Run one composite edit on the real network.  Returns (protocol tokens, exact?)."""
+    from pytreenet.core.canonical_form import canonical_form, split_qr_contract_r_to_neighbour
+    from pytreenet.core.truncation.recursive_truncation import truncate_node
+    from pytreenet.core.truncation.svd_truncation import contract_and_split_with_parent
+    from pytreenet.time_evolution.tdvp_algorithms.onesitetdvp import OneSiteTDVP
+    from pytreenet.time_evolution.tdvp_algorithms.twositetdvp import TwoSiteTDVP
+    ttn = w.ttn
+    kind = op["op"]
+
+    def fresh() -> int:
+        tmpno[0] += 1
+        return w.nid(f"@comp{tmpno[0]}")
+    if kind == "link":                       # OneSiteTDVP._update_link(a, b), evolution = identity
+        a, b = op["a"], op["b"]
+        OneSiteTDVP._split_updated_site(_TdvpStub(ttn), a, b)
+        link_id = OneSiteTDVP.create_link_id(a, b)
+        bd = comp_bond(ttn, a, link_id)
+        lt = ttn.tensors[link_id]
+        ttn.tensors[link_id] = lt.copy()
+        ttn.contract_nodes(link_id, b, new_identifier=b)
+        return [f"link:{w.nid(a)}:{w.nid(b)}:{fresh()}:{bd}"], True
+    if kind == "twosite":                    # TwoSiteTDVP._update_two_site_nodes(a, b), evolution = identity
+        a, b = op["a"], op["b"]
+        u, v = ttn.legs_before_combination(a, b)
+        new_id = TwoSiteTDVP.create_two_site_id(a, b)
+        ttn.contract_nodes(a, b, new_identifier=new_id)
+        psi = ttn.tensors[new_id]
+        ttn.tensors[new_id] = psi.copy()
+        ttn.split_node_svd(new_id, u, v, u_identifier=a, v_identifier=b, svd_params=svd_params(op.get("k")))
+        return [f"twosite:{w.nid(a)}:{w.nid(b)}:{fresh()}:{comp_bond(ttn, a, b)}"], op.get("k") is None
+    if kind == "move":
+        a, b = op["a"], op["b"]
+        split_qr_contract_r_to_neighbour(ttn, a, b)
+        return [f"move:{w.nid(a)}:{w.nid(b)}:{fresh()}:auto"], True
+    if kind == "csplit":
+        a, b = op["a"], op["b"]
+        contract_and_split_with_parent(a, ttn, svd_params(op.get("k")))
+        return [f"csplit:{w.nid(a)}:{w.nid(b)}:{fresh()}:{comp_bond(ttn, a, b)}"], op.get("k") is None
+    if kind == "canon":                      # canonical_form(ttn, c) = moves, farthest nodes first
+        c = op["c"]
+        dist = ttn.distance_to_node(c)
+        toks = []
+        for d in reversed(range(1, max(dist.values()) + 1)):
+            for x in [y for y in dist if dist[y] == d]:
+                nbs = ttn.nodes[x].neighbouring_nodes()
+                nb = min({y: dist[y] for y in nbs}, key=lambda y: dist[y])
+                toks.append(f"move:{w.nid(x)}:{w.nid(nb)}:{fresh()}:auto")
+        canonical_form(ttn, c)
+        return toks, True
+    if kind == "trunc":                      # recursive_truncation between its canonicalisations
+        truncate_node(ttn.root_id, ttn, svd_params(op.get("k")))
+        ks = ",".join(f"{w.nid(i)}={comp_bond(ttn, i, n.parent)}" for i, n in ttn.nodes.items()
+                      if n.parent is not None) or "-"
+        return [f"rectrunc:{ks}"], op.get("k") is None
+    raise common.HarnessError(f"unknown composite op {kind}")
+
+
+def comp_structure_oracle(w: "World") -> List[str]:
+    """What the structural theorems promise, on the real network: same identifiers, root, parents, children
+    sets; identical key sets; well-formed."""
+    ttn, exp = w.ttn, w.exp
+    if set(ttn.nodes.keys()) != set(exp.nodes):
+        return [f"node set {sorted(ttn.nodes.keys())} expected {sorted(exp.nodes)}"]
+    if set(ttn.nodes.keys()) != set(ttn.tensors.keys()):
+        return [f"node keys {sorted(ttn.nodes.keys())} != tensor keys {sorted(ttn.tensors.keys())}"]
+    if ttn.root_id != exp.root:
+        return [f"root_id {ttn.root_id} expected {exp.root}"]
+    for x, e in exp.nodes.items():
+        n = ttn.nodes[x]
+        if n.parent != e["parent"]:
+            return [f"{x}: parent {n.parent} expected {e['parent']}"]
+        if sorted(n.children) != sorted(e["children"]):
+            return [f"{x}: children {n.children} expected the set {sorted(e['children'])}"]
+        if n.nlegs() - exp.nvirt(x) != len(e["open"]):
+            return [f"{x}: {n.nlegs() - exp.nvirt(x)} open legs, expected {len(e['open'])}"]
+        od = [int(d) for d in n.shape[exp.nvirt(x):]]
+        if od != [w.label_dim[l] for l in e["open"]]:
+            return [f"{x}: open-leg dimensions {od} expected {[w.label_dim[l] for l in e['open']]}"]
+    wf = dense.well_formed(copy.deepcopy(ttn))
+    if wf:
+        return ["not well-formed: " + "; ".join(wf[:3])]
+    return []
+
+
+def run_comp(ctx, case: Dict[str, Any]):
+    """Composite edits: oracle (structure always; labelled dense contraction while every edit so far was exact)
+    and correspondence with the model's composite operations."""
+    w = World(case)
+    rng = random.Random(case["seed"] * 104729 + 7)
+    ops = case.get("ops")
+    if ops is None:
+        ops = gen_comp_ops(w, rng, case["nops"])
+    toks = list(w.build_toks)
+    lines: List[Optional[str]] = [None] * len(toks)
+    opidx: List[Optional[int]] = [None] * len(toks)
+    pr = check_state(w)
+    if pr:
+        ctx.oracle_fail(dict(case, ops=[]), "comp: initial network: " + pr[0])
+        return
+    lines[-1] = state_line(w)
+    exact, moved, kinds = True, False, set()
+    tmpno = [0]
+    for i, op in enumerate(ops):
+        kinds.add(op["op"])
+        ctx.tally("ops", "comp:" + op["op"])
+        before = {x: list(n.children) for x, n in w.ttn.nodes.items()}
+        sub = dict(case, ops=ops[:i + 1])
+        try:
+            new_toks, ex = apply_comp(w, op, tmpno)
+        except Exception as e:   # noqa: BLE001
+            ctx.oracle_fail(sub, f"comp op#{i} {op}: raised {type(e).__name__}: {str(e)[:160]} on an admissible call")
+            return
+        exact = exact and ex
+        pr = comp_structure_oracle(w)
+        if not pr and exact:
+            pr = check_state(w)
+        if pr:
+            ctx.oracle_fail(sub, f"comp op#{i} {op}: " + pr[0])
+            return
+        if any(list(n.children) != before[x] for x, n in w.ttn.nodes.items()):
+            moved = True
+        for x, e in w.exp.nodes.items():
+            e["children"] = list(w.ttn.nodes[x].children)
+        for t in new_toks:
+            toks.append(t)
+            lines.append(None)
+            opidx.append(i)
+        if new_toks:
+            lines[-1] = state_line(w)
+    ctx.count(("comp", case["seed"], case["n"], len(ops)), nontrivial=len(kinds) >= 3 and moved, corr=True)
+    out = ctx.lean.batch(["C02 hist " + " ".join(toks)])[0]
+    mlines = out.split("|")
+    if out == "bad-op" or len(mlines) != len(lines):
+        ctx.corr_fail(dict(case, ops=ops), f"comp: model answered {out[:80]!r} for {len(lines)} tokens")
+        return
+    for j, (a, b) in enumerate(zip(lines, mlines)):
+        if a is not None and a != b:
+            k = opidx[j]
+            ctx.corr_fail(dict(case, ops=ops[:k + 1] if k is not None else []),
+                          f"comp token#{j} {toks[j]}: implementation {a} | model {b}")
+            return
+
+
 def run_case(ctx, case, model_out=None):
     kind = case.get("kind", "hist")
     if kind == "hist":
@@ -1365,6 +1581,8 @@ def run_case(ctx, case, model_out=None):
         if model_out is None:
             model_out = ctx.lean.batch(["C02 nodeseq " + " ".join(toks)])[0]
         compare_nodeseq(ctx, case, toks, lines, probs, model_out)
+    elif kind == "comp":
+        run_comp(ctx, case)
     else:
         raise common.HarnessError(f"unknown case kind {kind}")
 
@@ -1380,6 +1598,9 @@ def gen_cases(ctx) -> List[Dict[str, Any]]:
         cases.append({"kind": "hist", "seed": rng.randrange(10 ** 9), "n": n, "nops": nops})
     for _ in range(ctx.n(3000, 20000)):
         cases.append({"kind": "nodeseq", "seed": rng.randrange(10 ** 9), "nops": rng.randint(2, 25)})
+    for _ in range(ctx.n(150, 1500)):
+        cases.append({"kind": "comp", "seed": rng.randrange(10 ** 9), "n": rng.choice([2, 3, 4, 5, 6, 7, 8]),
+                      "nops": rng.randint(2, 10)})
     return cases
 
 
@@ -1422,6 +1643,8 @@ def run(ctx):
                 (c, d, {"toks": i["toks"], "lines": i["lines"], "opidx": i["opidx"]})))
             if len(pend) >= 100:
                 flush()
+        elif case.get("kind") == "comp":
+            run_case(ctx, case)
     flush()
 
 
@@ -1430,6 +1653,11 @@ def shrink(case):
         toks = case["toks"]
         for i in range(1, len(toks) - 1):          # keep the link and the failing op
             yield dict(case, toks=toks[:i] + toks[i + 1:])
+        return
+    if case.get("kind") == "comp" and case.get("ops"):
+        ops = case["ops"]
+        for i in range(len(ops) - 1):               # keep the failing (last) op
+            yield dict(case, ops=ops[:i] + ops[i + 1:])
         return
     if case.get("kind", "hist") != "hist" or not case.get("ops"):
         return
